@@ -105,6 +105,8 @@ func cacheChildMain(args []string) {
 	archs := fl.String("archs", "x86_64", "comma separated")
 	keyF := fl.String("key", "", "public key file (a fixed path: it ends up in /etc/apko.json)")
 	procs := fl.Int("procs", 1, "GOMAXPROCS")
+	pause := fl.String("pause", "", "<marker prefix>:<n> pause at the n-th marker with that prefix until the go file exists")
+	pauseGo := fl.String("pause-go", "", "file whose existence releases the paused build")
 	fl.Parse(args)
 	runtime.GOMAXPROCS(*procs)
 	if *cacheDir == "" {
@@ -125,13 +127,37 @@ func cacheChildMain(args []string) {
 			os.WriteFile(*traceF, []byte(strings.Join(trace, "\n")), 0o644)
 		}
 	}
+	pausePrefix, pauseN, pauseSeen := "", 0, 0
+	if *pause != "" {
+		i := strings.LastIndex(*pause, ":")
+		pausePrefix = (*pause)[:i]
+		fmt.Sscan((*pause)[i+1:], &pauseN)
+	}
 	verifapi.SetPointHook(func(name string) {
 		mu.Lock()
-		defer mu.Unlock()
 		trace = append(trace, name)
 		if *crash > 0 && len(trace) == *crash {
 			writeTrace()
 			os.Exit(exitCrash)
+		}
+		wait := false
+		if pausePrefix != "" && strings.HasPrefix(name, pausePrefix) {
+			pauseSeen++
+			if pauseSeen == pauseN {
+				writeTrace()
+				wait = true
+			}
+		}
+		mu.Unlock()
+		if wait {
+			// stand still exactly here (the parent runs another build meanwhile), for at most 10 s
+			os.WriteFile(*flagF, []byte("paused"), 0o644)
+			for i := 0; i < 10000; i++ {
+				if _, err := os.Stat(*pauseGo); err == nil {
+					break
+				}
+				time.Sleep(time.Millisecond)
+			}
 		}
 	})
 	// every apk of every revision stays downloadable (a real repository keeps old versions around);
@@ -252,6 +278,7 @@ func init() {
 }
 
 type childOpts struct {
+	Pause   string // "<marker prefix>:<n>"
 	World   string
 	Key     string
 	Cache   string
@@ -293,6 +320,11 @@ func startChild(scratch string, id int, o childOpts) func() childRes {
 	}
 	if o.Stall != "" {
 		args = append(args, "--stall", o.Stall)
+	}
+	pg := filepath.Join(scratch, fmt.Sprintf("go-%d", id))
+	os.Remove(pg)
+	if o.Pause != "" {
+		args = append(args, "--pause", o.Pause, "--pause-go", pg)
 	}
 	exe, _ := os.Executable()
 	cmd := exec.Command(exe, args...)
@@ -359,6 +391,26 @@ func startChild(scratch string, id int, o childOpts) func() childRes {
 	}
 }
 
+// cacheWaitPaused: true when child `id` stands at its pause marker, false when it finished without getting there
+func cacheWaitPaused(scratch string, id int) bool {
+	fg := filepath.Join(scratch, fmt.Sprintf("flag-%d", id))
+	out := filepath.Join(scratch, fmt.Sprintf("out-%d", id))
+	for i := 0; i < 12000; i++ {
+		if _, err := os.Stat(fg); err == nil {
+			return true
+		}
+		if _, err := os.Stat(out); err == nil {
+			return false
+		}
+		time.Sleep(time.Millisecond)
+	}
+	return false
+}
+
+func cacheRelease(scratch string, id int) {
+	os.WriteFile(filepath.Join(scratch, fmt.Sprintf("go-%d", id)), []byte("go"), 0o644)
+}
+
 func tailStr(s string, n int) string {
 	if len(s) > n {
 		return s[len(s)-n:]
@@ -392,8 +444,22 @@ func gunzipAll(b []byte) []byte {
 	return o
 }
 
-// addApk registers the three sections of one apk under content ids k1,k2,k3.
+// cacheApkSig: the signature member of a signed apk (what precedes the control member), nil for an unsigned one
+func cacheApkSig(a builtApk) []byte {
+	n := len(a.bytes) - len(a.control) - len(a.data)
+	if n <= 0 {
+		return nil
+	}
+	return a.bytes[:n]
+}
+
+// addApk registers the sections of one apk under content ids k1 (control), k1+1 (data), k1+2 (tar) and,
+// for a signed apk, k1+3 (signature; advertised under the control section's hash).
 func (k *cacheKnown) addApk(a builtApk, k1 int) {
+	if sig := cacheApkSig(a); len(sig) > 0 {
+		k.addContent(k1+3, sig)
+		k.nameCid[hex.EncodeToString(a.checksum)+".sig.tar.gz"] = k1 + 3
+	}
 	k.addContent(k1, a.control)
 	k.addContent(k1+1, a.data)
 	k.addContent(k1+2, gunzipAll(a.data))
